@@ -940,6 +940,15 @@ def complex_norm(m, c):
 M["Complex::norm"] = complex_norm
 
 
+def complex_norm_sqr(m, c):
+    re, im = _cparts(c)
+    if is_sym(re) or is_sym(im): raise Unsupported("symbolic Complex::norm_sqr")
+    return re * re + im * im
+
+
+M["Complex::norm_sqr"] = complex_norm_sqr
+
+
 def mem_discriminant(m, r):
     """core::mem::discriminant: an opaque value that compares equal exactly for equal variants"""
     v = deref(r)
